@@ -18,6 +18,7 @@ pub fn prop_of(id: &str) -> Option<Prop> {
         "C09" => Prop::C09,
         "C10" => Prop::C10,
         "C12" => Prop::C12,
+        "C18" => Prop::Trace,
         "C14" => Prop::C14,
         "C15" => Prop::C15,
         _ => return None,
@@ -31,6 +32,23 @@ pub fn run_check(ctx: &Ctx) -> Outcome {
         "bounded exploration: absence of violations is established only for the generated cases".into(),
         "the verification hooks (feature verif-hooks) report the internal lists faithfully".into(),
     ];
+    // open known findings of this property: the dedicated replay confirms that the finding
+    // still reproduces; it is printed as KNOWN-FINDING and never counted as a violation
+    for (ix, (p, sig, text)) in ctx.known.open.iter().enumerate() {
+        if p != &ctx.id {
+            continue;
+        }
+        let status = match ctx.known.replay.get(ix).and_then(|r| r.clone()) {
+            None => "listed",
+            Some(rel) => match replay_file(&format!("{}/{}", ctx.verif_dir, rel)) {
+                Ok(Some(v)) if &v.sig == sig => "still reproduces",
+                Ok(Some(_)) => "replay now fails differently",
+                Ok(None) => "does not reproduce on this tree / toolchain",
+                Err(_) => "replay file unreadable",
+            },
+        };
+        out.known_lines.push(format!("KNOWN-FINDING: property={} sig={} [{}] {}", p, sig, status, text));
+    }
     // seconds-long replay tier: committed counterexamples of repaired defects and of seeded
     // changes (regress/<id>/*.json) are re-executed first; on a tree where the property holds
     // they all pass, and a defect that returns is reported with that file as the replay
@@ -141,7 +159,7 @@ pub fn replay(prop: &str, engine: &str, case: &Value) -> Result<Option<Violation
             }
             Ok(r.violation.map(|x| x.0))
         }
-        "e4" => {
+        "e4" | "e4churn" => {
             let c: Case = serde_json::from_value(case.clone()).map_err(|e| e.to_string())?;
             Ok(exec_e4(&c).violation)
         }
